@@ -180,3 +180,32 @@ Proof.
     [discriminate | | congruence].
   destruct (check_valid _); discriminate.
 Qed.
+
+(* ------------------------------------------------------------------ any plug-in *)
+Lemma fetch_generic_valid_lemma plug mode absurl src p p3 calls :
+  fetch_generic plug mode absurl src p = FOut p3 calls -> check_valid p3 = true.
+Proof.
+  unfold fetch_generic. cbn zeta.
+  destruct (plug mode _ _) as [[[[p2 err] ptr_ok] c2]|]; [|discriminate].
+  destruct err; [discriminate|].
+  destruct (check_valid _) eqn:EV; cbn [andb]; [|discriminate].
+  destruct ptr_ok; [|discriminate]. intros H. inversion H; subst. exact EV.
+Qed.
+
+Lemma fetch_generic_ptr_lemma plug mode absurl src p p3 calls :
+  fetch_generic plug mode absurl src p = FOut p3 calls ->
+  exists srcs p1 p2, plug mode srcs p1 = Some (p2, false, true, calls).
+Proof.
+  unfold fetch_generic. cbn zeta.
+  match goal with |- context [plug mode ?s ?q] => destruct (plug mode s q) as [[[[p2 err] ptr_ok] c2]|] eqn:E; [|discriminate]; intros HF; exists s, q, p2 end.
+  destruct err; [discriminate|]. destruct (check_valid _); cbn [andb] in HF; [|discriminate].
+  destruct ptr_ok; [|discriminate]. inversion HF; subst. exact E.
+Qed.
+
+Lemma fetch_symbolize_generic_lemma mode e absurl script src p :
+  fetch_symbolize mode e absurl script src p = fetch_generic (builtin_plugin e script) mode absurl src p.
+Proof.
+  unfold fetch_symbolize, fetch_generic, builtin_plugin. cbn zeta.
+  destruct (symbolize mode _ script _) as [p2 [|] c2|]; [reflexivity | | reflexivity].
+  destruct (check_valid _); reflexivity.
+Qed.
